@@ -8,6 +8,7 @@ CONSTANTS K = 2
           Holds = {FALSE}
           MaxClock = 1000000
           LibFoldersInKey = TRUE
+          Beyond = {}
           FreshLibHandles = TRUE
 INIT Init
 NEXT Next
